@@ -149,6 +149,11 @@ def run(rep, drv):
 						if rq.r_q_cost(rr + dr, Qx, h, p, K, lam, sd, L) < c0 - 1e-7 * max(1, c0):
 							bad.append('Q=%r: r(Q)=%r does not minimise the cost over r (r %+g is cheaper)' % (Qx, rr, dr))
 							break
+				# the documented meaning of the option `tol`: |g(r) - g(r+Q)| <= tol, for tolerances tighter than the default too
+				for tol_ in (1e-8, 1e-10):
+					rt = rq.r_q_optimal_r_for_q(Q, h, p, lam, sd, L, tol=tol_)
+					if abs(g(rt) - g(rt + Q)) > tol_ * 1.000001 + 1e-12 * max(1, g(rt)):
+						bad.append('r_q_optimal_r_for_q(Q=%r, tol=%g) = %r leaves |g(r) - g(r+Q)| = %g' % (Q, tol_, rt, abs(g(rt) - g(rt + Q))))
 				r3, Q3 = rq.r_q_eoqb_approximation(h, p, K, lam, sd, L)
 				if abs(Q3 - math.sqrt(2 * K * lam * (h + p) / (h * p))) > 1e-9 * Q3 or abs(g(r3) - g(r3 + Q3)) > 1e-5 * max(1, g(r3)):
 					bad.append('EOQB approximation wrong: r=%r Q=%r g(r)=%r g(r+Q)=%r' % (r3, Q3, g(r3), g(r3 + Q3)))
